@@ -12,15 +12,17 @@ def log2(n):
 
 
 class Runner:
-    def __init__(s, cfg='avx2'):
+    def __init__(s, cfg='avx2', omp=False):
         s.cfg = cfg
+        s.omp = omp
         s.worlds = {}
+        s.par = []          # parallel-region summaries of the last call (omp mode)
 
     def world(s, cap, nthreads, ext=1):
         k = (cap, nthreads, ext)
         w = s.worlds.get(k)
         if w is None:
-            W = NTTWorld(s.cfg, sroa=True)
+            W = NTTWorld(s.cfg, omp=s.omp, sroa=True)
             this = W.construct(cap, nthreads, ext)
             w = (W, this, W.snapshot())
             s.worlds[k] = w
@@ -54,6 +56,7 @@ class Runner:
             b = W.buffer('buffer', n * ncols_alloc, kind='heap')
             bptr = Ptr(b, 0)
         base_heap = list(I.heap)
+        I.par_regions = []
         try:
             if kind == 'ntt':
                 I.call(W.names['ntt'], [this, dptr, Ptr(src, 0), n, ncols, bptr, nphase, nblock, 0, 0])
@@ -113,6 +116,7 @@ class Runner:
             b = W.buffer('buffer', Next * ncols, kind='heap')
             bptr = Ptr(b, 0)
         base_heap = list(I.heap)
+        I.par_regions = []
         try:
             I.call(W.names['ext'], [this, Ptr(io, 0), Ptr(inp, 0), Next, N, ncols, bptr, nphase, nblock])
         except Sink as e:
